@@ -550,4 +550,242 @@ theorem tombstone_noop (r : Registry) (a : HttpArgs) (now : Int) (h : (tombstone
 theorem status_ne_200 (o : HttpOut) (h : o.status ≠ 200) : o ≠ .ok := by
   intro hh; rw [hh] at h; exact h rfl
 
+theorem route_redirect_code (method path : String) (code : Nat) (h : route method path = .redirect code) :
+    code = 301 ∨ code = 307 := by
+  unfold route at h
+  split at h
+  · simp at h
+  · split at h
+    · simp only [Route.redirect.injEq] at h
+      rw [← h]; split <;> simp
+    · split at h
+      · split at h <;> simp at h
+      · split at h <;> simp at h
+
+/-- the deterministic part of the HTTP model: not 200 ⇒ nothing changed; the status is one of the listed ones -/
+theorem httpStep_noop (c : Conf) (r : Registry) (method path : String) (a : HttpArgs) (now : Int) :
+    ((httpStep c r method path a now).2 ≠ 200 → (httpStep c r method path a now).1 = r) ∧
+    (httpStep c r method path a now).2 ∈ [200, 301, 307, 400, 404, 405] := by
+  unfold httpStep
+  have st : ∀ o : HttpOut, o.status ≠ 200 → o ≠ .ok := status_ne_200
+  have e400 : ∀ m, (HttpOut.err 400 m).status = 400 := fun _ => rfl
+  split
+  · exact ⟨fun _ => rfl, by simp⟩
+  · exact ⟨fun _ => rfl, by simp⟩
+  · exact ⟨fun _ => rfl, by simp⟩
+  · rename_i code hr
+    refine ⟨fun _ => rfl, ?_⟩
+    rcases route_redirect_code method path code hr with h | h <;> simp [h]
+  · refine ⟨fun h => createTopic_noop r a (st _ h), ?_⟩
+    unfold createTopic; split <;> (try split) <;> (try split) <;> simp [HttpOut.status]
+  · refine ⟨fun h => deleteTopic_noop r a (st _ h), ?_⟩
+    unfold deleteTopic; split <;> (try split) <;> simp [HttpOut.status]
+  · refine ⟨fun h => createChannel_noop r a (st _ h), ?_⟩
+    unfold createChannel
+    split
+    · simp [HttpOut.status]
+    · split
+      · rename_i e hg
+        unfold getTopicChannelArgs at hg
+        split at hg
+        · simp only [Except.error.injEq] at hg; rw [← hg]; simp [HttpOut.status]
+        · split at hg
+          · simp only [Except.error.injEq] at hg; rw [← hg]; simp [HttpOut.status]
+          · split at hg
+            · simp only [Except.error.injEq] at hg; rw [← hg]; simp [HttpOut.status]
+            · split at hg
+              · simp only [Except.error.injEq] at hg; rw [← hg]; simp [HttpOut.status]
+              · simp at hg
+      · simp [HttpOut.status]
+  · refine ⟨fun h => deleteChannel_noop r a (st _ h), ?_⟩
+    unfold deleteChannel
+    split
+    · simp [HttpOut.status]
+    · split
+      · rename_i e hg
+        unfold getTopicChannelArgs at hg
+        split at hg
+        · simp only [Except.error.injEq] at hg; rw [← hg]; simp [HttpOut.status]
+        · split at hg
+          · simp only [Except.error.injEq] at hg; rw [← hg]; simp [HttpOut.status]
+          · split at hg
+            · simp only [Except.error.injEq] at hg; rw [← hg]; simp [HttpOut.status]
+            · split at hg
+              · simp only [Except.error.injEq] at hg; rw [← hg]; simp [HttpOut.status]
+              · simp at hg
+      · split <;> simp [HttpOut.status]
+  · refine ⟨fun h => tombstone_noop r a now (st _ h), ?_⟩
+    unfold tombstone; split <;> (try split) <;> (try split) <;> simp [HttpOut.status]
+  · split
+    · exact ⟨fun _ => rfl, by simp⟩
+    · split
+      · exact ⟨fun _ => rfl, by simp⟩
+      · split
+        · refine ⟨fun _ => rfl, ?_⟩; split <;> simp
+        · refine ⟨fun _ => rfl, ?_⟩; split <;> simp
+  · split
+    · exact ⟨fun _ => rfl, by simp⟩
+    · split <;> exact ⟨fun _ => rfl, by simp⟩
+  · exact ⟨fun _ => rfl, by simp⟩
+
+/-! ### The documented error table: `Exec` answers exactly the error `expectedErr` names -/
+
+theorem getTopicChan_errCode (cmd : String) (args : List Name) :
+    (match getTopicChan cmd args with | .error e => errCodeOf e | .ok _ => none) =
+      (match args with
+       | [] => some .invalid
+       | t :: _ => if !validName t then some .badTopic
+                   else if chanParam args ≠ [] && !validName (chanParam args) then some .badChannel else none) := by
+  unfold getTopicChan
+  cases args with
+  | nil => rfl
+  | cons t rest =>
+    simp only
+    by_cases h1 : validName t = true
+    · by_cases hc : chanParam (t :: rest) = []
+      · simp [h1, hc]
+      · by_cases hv : validName (chanParam (t :: rest)) = true
+        · simp [h1, hc, hv]
+        · simp [h1, hc, hv, errCodeOf]
+    · simp [h1, errCodeOf]
+
+theorem register_errCode (r : Registry) (p : Nat) (args : List Name) :
+    errCodeOf (register r p args).2 =
+      if !identifiedB r p then some .invalid
+      else match args with
+       | [] => some .invalid
+       | t :: _ => if !validName t then some .badTopic
+                   else if chanParam args ≠ [] && !validName (chanParam args) then some .badChannel else none := by
+  unfold register
+  by_cases hi : identifiedB r p = true
+  · simp only [hi, Bool.not_true, Bool.false_eq_true, if_false]
+    rw [← getTopicChan_errCode "REGISTER" args]
+    cases getTopicChan "REGISTER" args <;> rfl
+  · simp [hi, errCodeOf]
+
+theorem unregister_errCode (r : Registry) (p : Nat) (args : List Name) :
+    errCodeOf (unregister r p args).2 =
+      if !identifiedB r p then some .invalid
+      else match args with
+       | [] => some .invalid
+       | t :: _ => if !validName t then some .badTopic
+                   else if chanParam args ≠ [] && !validName (chanParam args) then some .badChannel else none := by
+  unfold unregister
+  by_cases hi : identifiedB r p = true
+  · simp only [hi, Bool.not_true, Bool.false_eq_true, if_false]
+    rw [← getTopicChan_errCode "UNREGISTER" args]
+    cases getTopicChan "UNREGISTER" args <;> rfl
+  · simp [hi, errCodeOf]
+
+theorem identify_errCode (r : Registry) (p : Nat) (info : Info) (now : Int) (hi : identifiedB r p = false) :
+    errCodeOf (identify r p info now).2 = if missingFields info then some .badBody else none := by
+  unfold identify
+  by_cases hm : missingFields info = true <;> simp [hi, hm, errCodeOf]
+
+theorem execIdentify_errCode (decode : List UInt8 → Option Info) (r r' : Registry) (p : Nat) (now : Int)
+    (rest rest' : List UInt8) (out : TcpOut)
+    (h : execIdentify fixedV decode r p now rest = .reply r' out rest') :
+    errCodeOf out = expectedErr decode r p [cmdIDENTIFY] rest := by
+  have hne : cmdIDENTIFY ≠ cmdPING := by decide
+  unfold expectedErr
+  simp only [hne, if_false, if_true]
+  unfold execIdentify at h
+  by_cases hi : identifiedB r p = true
+  · simp only [hi, if_true, ExecRes.reply.injEq] at h
+    simp [hi, ← h.2.1, errCodeOf]
+  · simp only [hi, Bool.false_eq_true, if_false] at h ⊢
+    split at h
+    · rename_i a b c d body
+      simp only [fixedV, Bool.true_and] at h
+      by_cases h1 : be32 a b c d > maxIdentifyBody
+      · simp only [h1, decide_true, if_true, ExecRes.reply.injEq] at h
+        simp [h1, ← h.2.1, errCodeOf]
+      · by_cases h2 : be32 a b c d ≤ 0
+        · simp only [h1, h2, decide_true, decide_false, Bool.false_eq_true, if_true, if_false, ExecRes.reply.injEq] at h
+          simp [h2, ← h.2.1, errCodeOf]
+        · have h3 : ¬ be32 a b c d < 0 := by omega
+          simp only [h1, h2, h3, decide_false, Bool.false_eq_true, if_false] at h
+          simp only [h1, h2, or_self, if_false]
+          by_cases h4 : body.length < (be32 a b c d).toNat
+          · simp only [h4, if_true, ExecRes.reply.injEq] at h
+            simp [h4, ← h.2.1, errCodeOf]
+          · simp only [h4, if_false] at h ⊢
+            cases hd : decode (body.take (be32 a b c d).toNat) with
+            | none =>
+              simp only [hd, ExecRes.reply.injEq] at h
+              simp [← h.2.1, errCodeOf]
+            | some info =>
+              simp only [hd, ExecRes.reply.injEq] at h
+              rw [← h.2.1]
+              have hi' : identifiedB r p = false := by simpa using hi
+              exact identify_errCode r p info now hi'
+    · simp only [ExecRes.reply.injEq] at h
+      rename_i hx
+      rw [← h.2.1]
+      rfl
+
+/-- `Exec` answers exactly the error the documented table names -/
+theorem exec_errCode (decode : List UInt8 → Option Info) (r r' : Registry) (p : Nat) (now : Int)
+    (params : List Name) (rest rest' : List UInt8) (out : TcpOut)
+    (h : exec fixedV decode r p now params rest = .reply r' out rest') :
+    errCodeOf out = expectedErr decode r p params rest := by
+  unfold exec at h
+  cases params with
+  | nil => simp at h
+  | cons cmd args =>
+    simp only at h
+    by_cases c1 : cmd = cmdPING
+    · simp only [c1, if_true, ExecRes.reply.injEq] at h
+      simp [expectedErr, c1, ← h.2.1, errCodeOf]
+    · simp only [c1, if_false] at h
+      by_cases c2 : cmd = cmdIDENTIFY
+      · simp only [c2, if_true] at h
+        have := execIdentify_errCode decode r r' p now rest rest' out h
+        rw [this]
+        have hne : cmdIDENTIFY ≠ cmdPING := by decide
+        simp [expectedErr, c2, hne]
+      · simp only [c2, if_false] at h
+        by_cases c3 : cmd = cmdREGISTER
+        · simp only [c3, if_true, ExecRes.reply.injEq] at h
+          have e1 : cmdREGISTER ≠ cmdPING := by decide
+          have e2 : cmdREGISTER ≠ cmdIDENTIFY := by decide
+          rw [← h.2.1, register_errCode]
+          cases args <;> simp [expectedErr, c3, e1, e2]
+        · simp only [c3, if_false] at h
+          by_cases c4 : cmd = cmdUNREGISTER
+          · simp only [c4, if_true, ExecRes.reply.injEq] at h
+            have e1 : cmdUNREGISTER ≠ cmdPING := by decide
+            have e2 : cmdUNREGISTER ≠ cmdIDENTIFY := by decide
+            have e3 : cmdUNREGISTER ≠ cmdREGISTER := by decide
+            rw [← h.2.1, unregister_errCode]
+            cases args <;> simp [expectedErr, c4, e1, e2, e3]
+          · simp only [c4, if_false, ExecRes.reply.injEq] at h
+            simp [expectedErr, c1, c2, c3, c4, ← h.2.1, errCodeOf]
+
+
+/-- one iteration of `IOLoop` on a stream whose next line is `line` -/
+theorem ioLoop_line (v : Variant) (decode : List UInt8 → Option Info) (wf : Nat → Bool) (p : Nat) (now : Int)
+    (fuel : Nat) (r : Registry) (inp : List UInt8) (acc : List (List UInt8)) (line rest : List UInt8)
+    (hl : readLine inp = some (line, rest)) :
+    ioLoop v decode wf p now (fuel + 1) r inp acc =
+      match exec v decode r p now (splitSp (trimSpace line)) rest with
+      | .panic _ => ⟨r, acc, .panic⟩
+      | .reply r' out rest' =>
+        if out.isErr then
+          ⟨disconnect r' p, if wf acc.length then acc ++ [replyBytes out] else acc, .fatal⟩
+        else if !wf acc.length then ⟨disconnect r' p, acc, .writeFail⟩
+        else ioLoop v decode wf p now fuel r' rest' (acc ++ [replyBytes out]) := by
+  rw [ioLoop, hl]
+  simp only []
+  cases exec v decode r p now (splitSp (trimSpace line)) rest <;> rfl
+
+theorem errCodeOf_some (out : TcpOut) (c : Code) (h : errCodeOf out = some c) : ∃ m, out = .err c m := by
+  cases out with
+  | ok => simp [errCodeOf] at h
+  | identified => simp [errCodeOf] at h
+  | err c' m => simp only [errCodeOf, Option.some.injEq] at h; exact ⟨m, by rw [h]⟩
+
+theorem errCodeOf_none (out : TcpOut) (h : errCodeOf out = none) : out.isErr = false := by
+  cases out <;> simp_all [errCodeOf, TcpOut.isErr]
+
 end Nsq.Proofs.RegistryProto
